@@ -1,3 +1,6 @@
+"""Generator of lean/GeoProofs/Lemmas/WINDVertex.lean (the 27 direction/turn cases of the local identity at a
+ring vertex). Run `python3 lib/wind_vertex_gen.py` to regenerate the file; the output is committed."""
+import os
 def chain_facts(names, ranks, tag):
     out=[]; k=0
     for i,x in enumerate(names):
@@ -245,5 +248,5 @@ theorem vertex_local {a v b P Q : Pt} {t t' : Rat} (t0 : 0 < t) (t1 : t < 1) (t0
 
 end Geo.Proofs.WIND
 ''')
-    open("/tmp/ag/WIND/verif/lean/GeoProofs/Lemmas/WINDVertex.lean","w").write("\n".join(out))
+    open(os.path.join(os.path.dirname(os.path.abspath(__file__)), "..", "lean", "GeoProofs", "Lemmas", "WINDVertex.lean"), "w").write("\n".join(out))
 main()
